@@ -487,7 +487,23 @@ def cyclepath(repo):
         after = order[order.index("symbol_resolver.resolve_field_references") + 1:]
     except ValueError:
         raise AnalysisError("glue.process_ir: resolve_field_references not in the pass list")
-    rechecked = any("cycle" in p for p in after)
+    # a later pass counts only if it is a function of dependency_checker whose FieldReference action looks at every
+    # component of the path (iterates `reference.path` unsliced, or reads the last component)
+    rechecked = False
+    byname = {f.name: f for f in m.top_funcs()}
+    for pname in after:
+        fn = byname.get(pname.split(".")[-1]) if pname.startswith("dependency_checker.") else None
+        if fn is None:
+            continue
+        for c in walk_no_nested_funcs(fn.node):
+            if isinstance(c, ast.Call) and (call_name(c) or "").endswith("fast_traverse_ir_top_down") and len(c.args) >= 3 \
+                    and "FieldReference" in ast.unparse(c.args[1]) and isinstance(c.args[2], ast.Name) and c.args[2].id in byname:
+                act = byname[c.args[2].id]
+                for n in walk_no_nested_funcs(act.node):
+                    if isinstance(n, ast.For) and ast.unparse(n.iter).endswith(".path"):
+                        rechecked = True
+                    if isinstance(n, ast.Subscript) and ast.unparse(n.value).endswith(".path") and ast.unparse(n.slice) == "-1":
+                        rechecked = True
     if first_only and not rechecked:
         res.add(f"{DC}|{rec.name}|cycle-first-component-only", f"{rec.name} gives the cycle detector an edge for `reference.path[0]` only and "
                 "no pass after resolve_field_references looks for cycles again: `let o = f.o` with `f` of the enclosing structure's own "
